@@ -2,11 +2,20 @@ package main
 
 // C12 — the token endpoint over the full product of the property's quantifier (the same
 // enumeration as Model/OIDCEnum.v), the authorization step, and userinfo; decoded ID tokens
-// verified under the served JWKS.
+// verified under the served JWKS (key selected by kid); the same flows once per signer
+// configuration (RSA-3072, P-256, P-384, P-521, each with an Ed25519 SSH CA alongside).
 
 import (
+	"crypto"
+	"crypto/ecdsa"
+	"crypto/ed25519"
+	"crypto/elliptic"
+	"crypto/rand"
+	"crypto/rsa"
 	"crypto/sha256"
+	"crypto/x509"
 	"encoding/json"
+	"encoding/pem"
 	"fmt"
 	"io/ioutil"
 	"net/http"
@@ -16,8 +25,11 @@ import (
 	"testing"
 	"time"
 
+	"github.com/Cloud-Foundations/golib/pkg/log/testlogger"
 	"github.com/go-jose/go-jose/v4"
 	"github.com/go-jose/go-jose/v4/jwt"
+	"golang.org/x/crypto/ssh"
+	"gopkg.in/yaml.v2"
 )
 
 const (
@@ -95,7 +107,8 @@ func c12Challenge(ck int) (chal, meth string) {
 	return "", ""
 }
 
-func (env *verifEnv) c12Authorize(t *testing.T, user, client string, ck int) (*symTok, int64) {
+// a code from the real authorization endpoint; nil when the endpoint refuses (status returned)
+func (env *verifEnv) c12Authorize(t *testing.T, user, client string, ck int) (*symTok, int64, int) {
 	chal, meth := c12Challenge(ck)
 	extra := url.Values{"nonce": {c12Nonce}}
 	if chal != "" {
@@ -107,10 +120,12 @@ func (env *verifEnv) c12Authorize(t *testing.T, user, client string, ck int) (*s
 	now := time.Now().Unix()
 	code, status := env.c04Authorize(t, user, client, c12RedirectSame, extra)
 	if code == "" {
-		t.Fatalf("authorize refused client=%s ck=%d: %d", client, ck, status)
+		return nil, now, status
 	}
-	return newSymTok(code, env.signerKeyID(), false, fmt.Sprintf("code(authorize endpoint) client=%s ck=%d", client, ck)), now
+	return newSymTok(code, env.signerKeyID(), false, fmt.Sprintf("code(authorize endpoint) client=%s ck=%d", client, ck)), now, status
 }
+
+// ---------------------------------------------------------------- the served JWKS
 
 type c12JWKS struct {
 	set  jose.JSONWebKeySet
@@ -130,127 +145,450 @@ func (env *verifEnv) c12FetchJWKS(t *testing.T) *c12JWKS {
 	return &j
 }
 
-// the token verifies under one of the published keys and its kid names a published key
-func (j *c12JWKS) verifies(raw string, dest interface{}) (bool, bool) {
+// what a relying party does: the published key(s) the token's kid names; the signature must
+// verify under one of them.  kidOK: the kid names a published key at all.
+func (j *c12JWKS) verifies(raw string, dest interface{}) (verified bool, kidOK bool, alg string) {
 	tok, err := jwt.ParseSigned(raw, j.algs)
-	if err != nil {
-		return false, false
+	if err != nil || len(tok.Headers) == 0 {
+		return false, false, ""
 	}
-	kidOK := false
-	if len(tok.Headers) > 0 {
-		kidOK = len(j.set.Key(tok.Headers[0].KeyID)) > 0
-	}
-	for _, k := range j.set.Keys {
+	alg = tok.Headers[0].Algorithm
+	named := j.set.Key(tok.Headers[0].KeyID)
+	kidOK = tok.Headers[0].KeyID != "" && len(named) > 0
+	for _, k := range named {
 		if tok.Claims(k.Key, dest) == nil {
-			return true, kidOK
+			return true, kidOK, alg
 		}
 	}
-	return false, kidOK
+	return false, kidOK, alg
 }
 
-func TestVerif_C12(t *testing.T) {
-	verifWriteConsts(t)
-	res := newVerifResult("token endpoint over the full product: caller {client with secret, secret-less client, unknown} x secret {right, wrong, none} x verifier {right, wrong, none} x challenge bound into the code {S256, plain, empty method, unknown method, none} x redirect {same, other} x code {fresh, expired, tampered, issued to the other client, a session cookie, an access token} x credentials in {header, form, header url-escaped} = 4860 requests (codes from the real authorize endpoint where it admits the challenge method, otherwise signed in-package); every released ID token decoded and verified under the served JWKS, every released access token taken to userinfo; ~70 authorization requests; ~60 userinfo probes (other kinds, audiences, header/form/query); non-trivial = the request passed client lookup; distinct by combination")
-	env := verifSetup(t, c12Config)
-	st := env.state
-	sid := env.signerKeyID()
-	prod := env.c04Produce2(t)
-	env.writeTokenConsts(t, prod)
-	jwks := env.c12FetchJWKS(t)
-	issuer := st.idpGetIssuer()
+// ---------------------------------------------------------------- signer configurations
 
-	callers := []struct{ id, secret, user, codeClient, otherClient string }{
-		{c04ClientA, c04SecretA, "alice", c04ClientA, c04ClientB},
-		{c04ClientB, "", "bob", c04ClientB, c04ClientA},
-		{"clientX", c04SecretA, "alice", c04ClientA, c04ClientB},
+// key types as Model/OIDC.v keytype / OIDCEnum.keytype_code numbers them
+func c12KeyType(pub crypto.PublicKey) (int, string) {
+	switch k := pub.(type) {
+	case *rsa.PublicKey:
+		return 1, "KRsa"
+	case *ecdsa.PublicKey:
+		switch k.Curve {
+		case elliptic.P256():
+			return 2, "KP256"
+		case elliptic.P384():
+			return 3, "KP384"
+		case elliptic.P521():
+			return 4, "KP521"
+		}
+	case ed25519.PublicKey:
+		return 5, "KEd25519"
 	}
+	return 99, "KOther"
+}
 
-	// ---- the table of codes, index ((caller*5)+challenge)*6+state
-	var codes []*c12Code
-	tMint0 := time.Now().UnixNano()
-	accessTok := prod.access
-	for cl, c := range callers {
+type c12Spec struct {
+	name    string             // stable name of the signer configuration (part of oracle keys)
+	signer  crypto.Signer      // ssh_ca_filename (plaintext PEM)
+	ed      crypto.Signer      // ed25519_ca_keyfilename, nil = not configured
+	file    []crypto.PublicKey // keymaster_public_keys_filename
+	sibling *rsa.PrivateKey    // private half of an RSA key of [file] (the harness plays the sibling instance)
+}
+
+// keys are numbered by fingerprint in the order file, Ed25519 CA, signer (first occurrence)
+type c12Keys struct {
+	number map[string]int
+	coq    string // keyconf literal
+}
+
+func c12Fingerprint(pub crypto.PublicKey) string {
+	fp, err := getKeyFingerprint(pub)
+	if err != nil {
+		// a key x/crypto/ssh cannot marshal has no fingerprint (and no kid)
+		return fmt.Sprintf("no-fingerprint:%T:%p", pub, pub)
+	}
+	return fp
+}
+
+func (sp *c12Spec) keys() *c12Keys {
+	k := &c12Keys{number: map[string]int{}}
+	lit := func(pub crypto.PublicKey) string {
+		fp := c12Fingerprint(pub)
+		if _, ok := k.number[fp]; !ok {
+			k.number[fp] = len(k.number) + 1
+		}
+		_, ty := c12KeyType(pub)
+		return fmt.Sprintf("{| pk_id := %d%%N; pk_type := %s |}", k.number[fp], ty)
+	}
+	var file []string
+	for _, p := range sp.file {
+		file = append(file, lit(p))
+	}
+	ed := "None"
+	if sp.ed != nil {
+		ed = "Some " + lit(sp.ed.Public())
+	}
+	k.coq = fmt.Sprintf("{| kc_file := [%s]; kc_ed := %s; kc_signer := %s |}", strings.Join(file, "; "), ed, lit(sp.signer.Public()))
+	return k
+}
+
+func c12PEM(k crypto.Signer) []byte {
+	der, err := x509.MarshalPKCS8PrivateKey(k)
+	if err != nil {
+		panic(err)
+	}
+	return pem.EncodeToMemory(&pem.Block{Type: "PRIVATE KEY", Bytes: der})
+}
+
+// the key files of the specification, through the public configuration surface
+func (sp *c12Spec) edit(t *testing.T) func(c *AppConfigFile, dir string) {
+	return func(c *AppConfigFile, dir string) {
+		c12Config(c, dir)
+		c.Base.SSHCAFilename = filepath.Join(dir, "c12_signer.pem")
+		if err := ioutil.WriteFile(c.Base.SSHCAFilename, c12PEM(sp.signer), 0600); err != nil {
+			t.Fatal(err)
+		}
+		if sp.ed != nil {
+			c.Base.Ed25519CAFilename = filepath.Join(dir, "c12_ed25519.pem")
+			if err := ioutil.WriteFile(c.Base.Ed25519CAFilename, c12PEM(sp.ed), 0600); err != nil {
+				t.Fatal(err)
+			}
+		}
+		if len(sp.file) > 0 {
+			var lines []byte
+			for _, p := range sp.file {
+				sp2, err := ssh.NewPublicKey(p)
+				if err != nil {
+					t.Fatal(err)
+				}
+				lines = append(lines, ssh.MarshalAuthorizedKey(sp2)...)
+			}
+			c.Base.KeymasterPublicKeysFilename = filepath.Join(dir, "c12_keymasterPublicKeys")
+			if err := ioutil.WriteFile(c.Base.KeymasterPublicKeysFilename, lines, 0644); err != nil {
+				t.Fatal(err)
+			}
+		}
+	}
+}
+
+// a running daemon state for the specification (plaintext key files: loaded at start-up)
+func (sp *c12Spec) start(t *testing.T) *verifEnv {
+	env := verifSetupSealed(t, sp.edit(t))
+	select {
+	case <-env.state.SignerIsReady:
+	case <-time.After(5 * time.Second):
+		t.Fatalf("%s: SignerIsReady not signalled", sp.name)
+	}
+	env.finishStartup()
+	return env
+}
+
+// does loadVerifyConfigFile accept these key files at all (second configuration file next to a
+// sealed default state, so that a refusal does not end the test)
+func (sp *c12Spec) tryLoad(t *testing.T) bool {
+	env := verifSetupSealed(t, c12Config)
+	raw, err := ioutil.ReadFile(env.configFile)
+	if err != nil {
+		t.Fatal(err)
+	}
+	var cfg AppConfigFile
+	if err := yaml.Unmarshal(raw, &cfg); err != nil {
+		t.Fatal(err)
+	}
+	sp.edit(t)(&cfg, env.dir)
+	out, err := yaml.Marshal(&cfg)
+	if err != nil {
+		t.Fatal(err)
+	}
+	fn := filepath.Join(env.dir, "config_c12.yml")
+	if err := ioutil.WriteFile(fn, out, 0640); err != nil {
+		t.Fatal(err)
+	}
+	st, err := loadVerifyConfigFile(fn, testlogger.New(t))
+	if err != nil {
+		return false
+	}
+	if st.dbDone != nil {
+		close(st.dbDone)
+	}
+	return true
+}
+
+// one daemon state under test
+type c12Site struct {
+	name    string
+	suffix  string // of the Coq definitions ("" = the main state)
+	env     *verifEnv
+	spec    *c12Spec // nil for the main state
+	keys    *c12Keys
+	jwks    *c12JWKS
+	issuer  string
+	sid     int
+	adv     []string // id_token_signing_alg_values_supported
+	sibling *rsa.PrivateKey
+}
+
+func (s *c12Site) fetchDiscovery(t *testing.T) {
+	rr, _ := s.env.serve(verifNewRequest("GET", idpOpenIDCConfigurationDocumentPath, nil))
+	if rr.Code != 200 {
+		t.Fatalf("discovery: %d", rr.Code)
+	}
+	var md openIDProviderMetadata
+	if err := json.Unmarshal(rr.Body.Bytes(), &md); err != nil {
+		t.Fatal(err)
+	}
+	s.adv = md.IDTokenSigningAlgValue
+}
+
+// observed: (key number, key type) of KeymasterPublicKeys; of the JWKS entries; advertised algorithms
+func (s *c12Site) coqKeysObserved() string {
+	var loaded, served, adv []string
+	for _, k := range s.env.state.KeymasterPublicKeys {
+		ty, _ := c12KeyType(k)
+		loaded = append(loaded, fmt.Sprintf("(%d%%N, %d%%N)", s.keys.number[c12Fingerprint(k)], ty))
+	}
+	for _, k := range s.jwks.set.Keys {
+		ty, _ := c12KeyType(k.Key)
+		served = append(served, fmt.Sprintf("(%d%%N, %d%%N)", s.keys.number[k.KeyID], ty))
+	}
+	for _, a := range s.adv {
+		adv = append(adv, fmt.Sprintf("%d%%N", tokAlgCode(a)))
+	}
+	return fmt.Sprintf("Some ([%s], [%s], [%s])", strings.Join(loaded, "; "), strings.Join(served, "; "), strings.Join(adv, "; "))
+}
+
+// the sub-product of Model/OIDCEnum.v combos_of
+type c12Dims struct{ cl, sm, vm, ck, rd, cs, loc []int }
+
+func c12Seq(n int) []int {
+	var l []int
+	for i := 0; i < n; i++ {
+		l = append(l, i)
+	}
+	return l
+}
+
+var c12FullDims = c12Dims{c12Seq(3), c12Seq(3), c12Seq(3), c12Seq(5), c12Seq(8), c12Seq(6), c12Seq(3)}
+var c12SignerDims = c12Dims{[]int{0, 1}, []int{0, 1, 2}, []int{0, 2}, []int{0, 4}, []int{0, 1, 2}, []int{0, 3}, []int{0, 1}}
+
+// thorough tier: nearly the full product on every signer configuration (no other-kind artefacts)
+var c12SignerDimsThorough = c12Dims{c12Seq(3), c12Seq(3), c12Seq(3), c12Seq(5), c12Seq(8), []int{0, 1, 2, 3}, c12Seq(3)}
+
+func (d c12Dims) coq() string {
+	l := func(v []int) string {
+		var p []string
+		for _, e := range v {
+			p = append(p, fmt.Sprint(e))
+		}
+		return "[" + strings.Join(p, "; ") + "]%nat"
+	}
+	return fmt.Sprintf("{| d_cl := %s; d_sm := %s; d_vm := %s; d_ck := %s; d_rd := %s; d_cs := %s; d_loc := %s |}",
+		l(d.cl), l(d.sm), l(d.vm), l(d.ck), l(d.rd), l(d.cs), l(d.loc))
+}
+
+func (d c12Dims) size() int {
+	return len(d.cl) * len(d.sm) * len(d.vm) * len(d.ck) * len(d.rd) * len(d.cs) * len(d.loc)
+}
+
+var c12Callers = []struct{ id, secret, user, codeClient, otherClient string }{
+	{c04ClientA, c04SecretA, "alice", c04ClientA, c04ClientB},
+	{c04ClientB, "", "bob", c04ClientB, c04ClientA},
+	{"clientX", c04SecretA, "alice", c04ClientA, c04ClientB},
+}
+
+var (
+	c12SecretNames   = []string{"right", "wrong", "none"}
+	c12VerifierNames = []string{"right", "wrong", "none"}
+	c12ChalNames     = []string{"S256", "plain", "empty-method", "unknown-method", "no-challenge"}
+	c12RedirectNames = []string{"same", "other", "absent", "empty", "same-with-trailing-slash", "same-in-upper-case", "sent-twice-same-first", "sent-twice-other-first"}
+	c12CodeNames     = []string{"fresh", "expired", "tampered", "other-client", "session-cookie", "access-token"}
+	c12LocNames      = []string{"header", "form", "header-escaped"}
+)
+
+// the values of redirect_uri in the request body, in the order sent (OIDCEnum.redirect_values)
+func c12RedirectValues(rd int) []string {
+	switch rd {
+	case 0:
+		return []string{c12RedirectSame}
+	case 1:
+		return []string{c12RedirectDiff}
+	case 2:
+		return nil
+	case 3:
+		return []string{""}
+	case 4:
+		return []string{c12RedirectSame + "/"}
+	case 5:
+		return []string{strings.ToUpper(c12RedirectSame)}
+	case 6:
+		return []string{c12RedirectSame, c12RedirectDiff}
+	}
+	return []string{c12RedirectDiff, c12RedirectSame}
+}
+
+// why the statement forbids a release for this redirect class ("" = it does not): the redirect
+// URI presented is the first value of the parameter
+func c12RedirectDefect(rd int) string {
+	switch rd {
+	case 0, 6:
+		return ""
+	case 2:
+		return "redirect-absent"
+	case 3:
+		return "redirect-empty"
+	}
+	return "redirect-differs"
+}
+
+type c12Released struct {
+	idx        int
+	idt, act   *symTok
+	userinfo   string
+	uiAnswered bool
+}
+
+type c12Run struct {
+	t       *testing.T
+	res     *verifResult
+	hitOnce map[string]bool
+	perKey  map[string]int
+}
+
+func (x *c12Run) hit(key, oracle, what string, c interface{}, obs interface{}) {
+	// at most three inputs per defect shape
+	if x.hitOnce[key+what] || x.perKey[key] >= 3 {
+		return
+	}
+	x.hitOnce[key+what] = true
+	x.perKey[key]++
+	x.res.hit(verifHit{Key: key, Oracle: oracle, What: what, Case: c, Observed: obs})
+}
+
+func (s *c12Site) userinfoOf(act string) (string, bool, int) {
+	req := verifNewRequest("GET", idpOpenIDCUserinfoPath, nil)
+	req.Header.Set("Authorization", "Bearer "+act)
+	rr, _ := s.env.serve(req)
+	if rr.Code != 200 {
+		return "", false, rr.Code
+	}
+	var ui openidConnectUserInfo
+	if json.Unmarshal(rr.Body.Bytes(), &ui) != nil {
+		return "", false, rr.Code
+	}
+	return ui.Subject, true, rr.Code
+}
+
+// the table of codes, index ((caller*5)+challenge)*6+state; nil where the sub-product does not go
+// or where the authorization endpoint does not mint such a code in this configuration
+func (x *c12Run) buildCodes(s *c12Site, d c12Dims, prod *c04Produced) []*c12Code {
+	t, env := x.t, s.env
+	in := func(l []int, v int) bool {
+		for _, e := range l {
+			if e == v {
+				return true
+			}
+		}
+		return false
+	}
+	codes := make([]*c12Code, 3*5*6)
+	for cl, c := range c12Callers {
 		for ck := 0; ck < 5; ck++ {
+			if !in(d.cl, cl) || !in(d.ck, ck) {
+				continue
+			}
+			base := (cl*5 + ck) * 6
 			chal, meth := c12Challenge(ck)
 			real := ck == 0 || ck == 2 || ck == 4
+			// without an RSA key nothing can be sealed, neither by the endpoint nor by the helper
+			canSeal := false
+			for _, k := range env.state.KeymasterPublicKeys {
+				if _, ok := k.(*rsa.PublicKey); ok {
+					canSeal = true
+				}
+			}
+			mint := func(client string, age int64) (*symTok, int64) {
+				if chal != "" && !canSeal {
+					return nil, 0
+				}
+				return env.c12Mint(client, c.user, chal, meth, age, "")
+			}
 			var fresh *symTok
 			var minted int64
 			if real {
-				fresh, minted = env.c12Authorize(t, c.user, c.codeClient, ck)
+				var status int
+				fresh, minted, status = env.c12Authorize(t, c.user, c.codeClient, ck)
+				if fresh == nil && (s.spec == nil || chal == "" || canSeal) {
+					t.Fatalf("%s: authorize refused client=%s ck=%d: %d", s.name, c.codeClient, ck, status)
+				}
+				x.res.bump(fmt.Sprintf("site:%s:authorize-ck%d:%d", s.name, ck, status))
 			} else {
-				fresh, minted = env.c12Mint(c.codeClient, c.user, chal, meth, 100, "")
+				fresh, minted = mint(c.codeClient, 100)
 			}
-			codes = append(codes, &c12Code{tok: fresh, client: c.codeClient, user: c.user, minted: minted, chal: ck, state: 0})
-			exp, m2 := env.c12Mint(c.codeClient, c.user, chal, meth, 1000, "")
-			codes = append(codes, &c12Code{tok: exp, client: c.codeClient, user: c.user, minted: m2, chal: ck, state: 1})
-			// one payload character changed
-			parts := strings.Split(fresh.raw, ".")
-			pos := len(parts[0]) + 1 + len(parts[1])/2
-			nb := byte('A')
-			if fresh.raw[pos] == 'A' {
-				nb = 'B'
+			if fresh != nil {
+				codes[base+0] = &c12Code{tok: fresh, client: c.codeClient, user: c.user, minted: minted, chal: ck, state: 0}
 			}
-			tam := env.tokCorrupt(fresh.raw, pos, nb, "code tampered")
-			codes = append(codes, &c12Code{tok: tam, client: c.codeClient, user: c.user, minted: minted, chal: ck, state: 2})
-			var other *symTok
-			var m3 int64
-			if real {
-				other, m3 = env.c12Authorize(t, c.user, c.otherClient, ck)
-			} else {
-				other, m3 = env.c12Mint(c.otherClient, c.user, chal, meth, 100, "")
+			if in(d.cs, 1) {
+				if exp, m2 := mint(c.codeClient, 1000); exp != nil {
+					codes[base+1] = &c12Code{tok: exp, client: c.codeClient, user: c.user, minted: m2, chal: ck, state: 1}
+				}
 			}
-			codes = append(codes, &c12Code{tok: other, client: c.otherClient, user: c.user, minted: m3, chal: ck, state: 3})
-			codes = append(codes, &c12Code{tok: prod.session, state: 4, chal: ck})
-			codes = append(codes, &c12Code{tok: accessTok, state: 5, chal: ck})
-			_ = cl
+			if in(d.cs, 2) && fresh != nil {
+				// one payload character changed
+				parts := strings.Split(fresh.raw, ".")
+				pos := len(parts[0]) + 1 + len(parts[1])/2
+				nb := byte('A')
+				if fresh.raw[pos] == 'A' {
+					nb = 'B'
+				}
+				tam := env.tokCorrupt(fresh.raw, pos, nb, "code tampered")
+				codes[base+2] = &c12Code{tok: tam, client: c.codeClient, user: c.user, minted: minted, chal: ck, state: 2}
+			}
+			if in(d.cs, 3) {
+				var other *symTok
+				var m3 int64
+				if real {
+					other, m3, _ = env.c12Authorize(t, c.user, c.otherClient, ck)
+				} else {
+					other, m3 = mint(c.otherClient, 100)
+				}
+				if other != nil {
+					codes[base+3] = &c12Code{tok: other, client: c.otherClient, user: c.user, minted: m3, chal: ck, state: 3}
+				}
+			}
+			if in(d.cs, 4) && prod != nil {
+				codes[base+4] = &c12Code{tok: prod.session, state: 4, chal: ck}
+			}
+			if in(d.cs, 5) && prod != nil {
+				codes[base+5] = &c12Code{tok: prod.access, state: 5, chal: ck}
+			}
 		}
 	}
-	res.Extra["codes"] = len(codes)
+	return codes
+}
 
-	// ---- the product
-	type released struct {
-		idx        int
-		idt, act   *symTok
-		userinfo   string
-		uiAnswered bool
-	}
-	var observed []byte
-	var rel []released
-	hitOnce := map[string]bool{}
-	hit := func(key, oracle, what string, c interface{}, obs interface{}) {
-		if hitOnce[key+what] {
-			return
-		}
-		hitOnce[key+what] = true
-		res.hit(verifHit{Key: key, Oracle: oracle, What: what, Case: c, Observed: obs})
-	}
-	userinfoOf := func(act string) (string, bool, int) {
-		req := verifNewRequest("GET", idpOpenIDCUserinfoPath, nil)
-		req.Header.Set("Authorization", "Bearer "+act)
-		rr, _ := env.serve(req)
-		if rr.Code != 200 {
-			return "", false, rr.Code
-		}
-		var ui openidConnectUserInfo
-		if json.Unmarshal(rr.Body.Bytes(), &ui) != nil {
-			return "", false, rr.Code
-		}
-		return ui.Subject, true, rr.Code
-	}
-	t0 := time.Now().UnixNano()
+// the sub-product against the real token endpoint of the site, in the order of combos_of
+func (x *c12Run) runProduct(s *c12Site, d c12Dims, codes []*c12Code) (observed []byte, rel []c12Released, t0, t1 int64, index []string) {
+	res, env := x.res, s.env
+	t0 = time.Now().UnixNano()
 	idx := 0
-	for cl, c := range callers {
-		for sm := 0; sm < 3; sm++ {
+	for _, cl := range d.cl {
+		c := c12Callers[cl]
+		for _, sm := range d.sm {
 			secret := []string{c.secret, c12WrongSecret, ""}[sm]
-			for vm := 0; vm < 3; vm++ {
+			for _, vm := range d.vm {
 				verifier := []string{c12V, c12W, ""}[vm]
-				for ck := 0; ck < 5; ck++ {
-					for rd := 0; rd < 2; rd++ {
-						redirect := []string{c12RedirectSame, c12RedirectDiff}[rd]
-						for cs := 0; cs < 6; cs++ {
+				for _, ck := range d.ck {
+					for _, rd := range d.rd {
+						redirects := c12RedirectValues(rd)
+						for _, cs := range d.cs {
 							code := codes[(cl*5+ck)*6+cs]
-							for loc := 0; loc < 3; loc++ {
-								form := url.Values{"grant_type": {"authorization_code"}, "redirect_uri": {redirect}, "code": {code.tok.raw}}
+							raw := "not-minted-in-this-configuration"
+							if code != nil {
+								raw = code.tok.raw
+							}
+							for _, loc := range d.loc {
+								form := url.Values{"grant_type": {"authorization_code"}, "code": {raw}}
+								if redirects != nil {
+									form["redirect_uri"] = redirects
+								}
 								if verifier != "" {
 									form.Set("code_verifier", verifier)
 								}
@@ -270,10 +608,10 @@ func TestVerif_C12(t *testing.T) {
 								rr, _ := env.serve(req)
 								var tr tokenResponse
 								ok := rr.Code == 200 && json.Unmarshal(rr.Body.Bytes(), &tr) == nil && tr.IDToken != ""
-								combo := map[string]interface{}{"caller": c.id, "secret": []string{"right", "wrong", "none"}[sm], "verifier": []string{"right", "wrong", "none"}[vm],
-									"challenge": []string{"S256", "plain", "empty-method", "unknown-method", "no-challenge"}[ck], "redirect": []string{"same", "other"}[rd],
-									"code": []string{"fresh", "expired", "tampered", "other-client", "session-cookie", "access-token"}[cs], "location": []string{"header", "form", "header-escaped"}[loc], "index": idx}
 								if ok {
+									combo := map[string]interface{}{"signer": s.name, "caller": c.id, "secret": c12SecretNames[sm], "verifier": c12VerifierNames[vm],
+										"challenge": c12ChalNames[ck], "redirect": c12RedirectNames[rd], "redirect_uri_values": redirects,
+										"code": c12CodeNames[cs], "location": c12LocNames[loc], "index": idx}
 									observed = append(observed, 1)
 									res.bump("released")
 									// the statement's own predicate
@@ -282,6 +620,8 @@ func TestVerif_C12(t *testing.T) {
 									switch {
 									case cl == 2:
 										reason = "unknown-client"
+									case code == nil:
+										reason = "not-a-code"
 									case cs == 1:
 										reason = "expired-code"
 									case cs == 2:
@@ -290,48 +630,68 @@ func TestVerif_C12(t *testing.T) {
 										reason = "code-of-other-client"
 									case cs >= 4:
 										reason = "not-a-code"
-									case rd != 0:
-										reason = "redirect-differs"
+									case c12RedirectDefect(rd) != "":
+										reason = c12RedirectDefect(rd)
 									case c.secret != "" && sm != 0:
 										reason = "secret-not-shown"
 									case c.secret == "" && !pkceMatch:
 										reason = "pkce-not-matched"
 									}
 									if reason != "" {
-										hit("C12:released:"+reason, "the token endpoint released tokens to a caller that did not prove to be the client of a fresh code with the bound redirect URI",
+										x.hit("C12:released:"+reason, "the token endpoint released tokens to a caller that did not prove to be the client of a fresh code with the bound redirect URI",
 											fmt.Sprintf("tokens released although %s: %v", reason, combo), combo, map[string]interface{}{"status": rr.Code})
 									}
-									idt := newSymTok(tr.IDToken, sid, false, "id")
-									act := newSymTok(tr.AccessToken, sid, false, "access")
-									r := released{idx: idx, idt: idt, act: act}
-									// ID token: issuer, sole audience, subject, nonce, expiry, JWKS
+									idt := newSymTok(tr.IDToken, s.sid, false, "id")
+									act := newSymTok(tr.AccessToken, s.sid, false, "access")
+									r := c12Released{idx: idx, idt: idt, act: act}
+									// ID token: verifies under the published key its kid names
 									var idc openIDConnectIDToken
-									verified, kidOK := jwks.verifies(tr.IDToken, &idc)
+									verified, kidOK, alg := s.jwks.verifies(tr.IDToken, &idc)
+									if !verified || !kidOK {
+										why := "its signature does not verify under the published key its kid names"
+										if !kidOK {
+											why = "its kid names no key of /idp/oauth2/jwks"
+										}
+										x.hit("C12:idtoken:not-under-jwks:"+s.name, "every released ID token must verify under a key served by /idp/oauth2/jwks, selected by kid",
+											fmt.Sprintf("ID token signed %s by the %s signer: %s (%d keys published)", alg, s.name, why, len(s.jwks.set.Keys)), combo,
+											map[string]interface{}{"id_token_header": strings.SplitN(tr.IDToken, ".", 2)[0], "published_kids": s.publishedKids()})
+										// the claims, for the remaining clauses, without the signature check
+										if tok, err := jwt.ParseSigned(tr.IDToken, s.jwks.algs); err == nil {
+											tok.UnsafeClaimsWithoutVerification(&idc)
+										}
+									}
+									// not part of the statement: is the algorithm one the discovery document advertises
+									advertised := false
+									for _, a := range s.adv {
+										if a == alg {
+											advertised = true
+										}
+									}
+									if !advertised {
+										res.bump("observation:idtoken-alg-not-advertised:" + s.name + ":" + alg)
+									}
+									// issuer, sole audience, subject, nonce, expiry
 									bad := ""
 									switch {
-									case !verified:
-										bad = "does not verify under the served JWKS"
-									case !kidOK:
-										bad = "kid names no published key"
-									case idc.Issuer != issuer:
+									case idc.Issuer != s.issuer:
 										bad = "issuer " + idc.Issuer
 									case len(idc.Audience) != 1 || idc.Audience[0] != c.id:
 										bad = fmt.Sprintf("audience %v (caller %s)", idc.Audience, c.id)
-									case cs < 4 && idc.Subject != code.user:
+									case code != nil && cs < 4 && idc.Subject != code.user:
 										bad = fmt.Sprintf("subject %q, logged in was %q", idc.Subject, code.user)
-									case cs < 4 && idc.Nonce != c12Nonce:
+									case code != nil && cs < 4 && idc.Nonce != c12Nonce:
 										bad = "nonce " + idc.Nonce
-									case cs < 4 && idc.Expiration > code.minted+16*3600+1:
+									case code != nil && cs < 4 && idc.Expiration > code.minted+16*3600+1:
 										bad = fmt.Sprintf("expires %d s after authorization + 16 h", idc.Expiration-code.minted-16*3600)
 									}
 									if bad != "" {
-										hit("C12:idtoken:"+strings.SplitN(bad, " ", 2)[0], "the ID token must name this issuer, the client as sole audience, the user of the authorization step, echo the nonce, expire within 16 h of authorization and verify under the JWKS",
+										x.hit("C12:idtoken:"+strings.SplitN(bad, " ", 2)[0], "the ID token must name this issuer, the client as sole audience, the user of the authorization step, echo the nonce and expire within 16 h of authorization",
 											"ID token "+bad, combo, map[string]interface{}{"id_token_claims": idt.claims})
 									}
-									u, answered, _ := userinfoOf(tr.AccessToken)
+									u, answered, _ := s.userinfoOf(tr.AccessToken)
 									r.userinfo, r.uiAnswered = u, answered
-									if cs < 4 && (!answered || u != code.user) {
-										hit("C12:userinfo:subject", "the access token must make userinfo return the user of the authorization step",
+									if code != nil && cs < 4 && (!answered || u != code.user) {
+										x.hit("C12:userinfo:subject", "the access token must make userinfo return the user of the authorization step",
 											fmt.Sprintf("userinfo answered %q (answered=%v) for the access token of a code minted for %q", u, answered, code.user), combo, nil)
 									}
 									rel = append(rel, r)
@@ -339,7 +699,9 @@ func TestVerif_C12(t *testing.T) {
 									observed = append(observed, 0)
 									res.bump(fmt.Sprintf("refused_%d", rr.Code))
 								}
-								res.eval(fmt.Sprintf("%d|%v", idx, ok), rr.Code != 400 || cl != 2)
+								res.eval(fmt.Sprintf("%s|%d|%v", s.name, idx, ok), rr.Code != 400 || cl != 2)
+								index = append(index, fmt.Sprintf("signer=%s caller=%d secret=%d verifier=%d challenge=%d redirect=%d(%s) code=%d location=%d released=%d status=%d",
+									s.name, cl, sm, vm, ck, rd, c12RedirectNames[rd], cs, loc, observed[len(observed)-1], rr.Code))
 								idx++
 							}
 						}
@@ -348,9 +710,295 @@ func TestVerif_C12(t *testing.T) {
 			}
 		}
 	}
-	t1 := time.Now().UnixNano()
+	t1 = time.Now().UnixNano()
+	return
+}
+
+func (s *c12Site) publishedKids() []string {
+	var l []string
+	for _, k := range s.jwks.set.Keys {
+		l = append(l, k.KeyID)
+	}
+	return l
+}
+
+// Coq: the code table and the environment record of one site
+func (s *c12Site) coqEnv(codes []*c12Code) string {
+	var sb strings.Builder
+	sb.WriteString("Definition codes" + s.suffix + " : list token := [\n")
+	for i, c := range codes {
+		sep := ";"
+		if i == len(codes)-1 {
+			sep = ""
+		}
+		if c == nil {
+			sb.WriteString(" tok_none" + sep + "\n")
+		} else {
+			sb.WriteString(" " + s.env.coqToken(c.tok) + sep + "\n")
+		}
+	}
+	sb.WriteString("].\n")
+	var cl []string
+	for _, c := range c12Callers {
+		cl = append(cl, fmt.Sprintf("(%s, %s)", coqStr(c.id), coqStr(c.secret)))
+	}
+	sb.WriteString(fmt.Sprintf("Definition c12_env%s : c12env :=\n  {| e_callers := [%s]; e_wrong_secret := %s; e_V := %s; e_W := %s; e_HV := %s; e_HW := %s;\n     e_red_same := %s; e_red_diff := %s; e_red_slash := %s; e_red_upper := %s; e_codes := codes%s |}.\n",
+		s.suffix, strings.Join(cl, "; "), coqStr(c12WrongSecret), coqStr(c12V), coqStr(c12W), coqStr(c12S256(c12V)), coqStr(c12S256(c12W)),
+		coqStr(c12RedirectSame), coqStr(c12RedirectDiff), coqStr(c12RedirectSame+"/"), coqStr(strings.ToUpper(c12RedirectSame)), s.suffix))
+	return sb.String()
+}
+
+func (s *c12Site) coqReleased(name string, rel []c12Released) string {
+	var sb strings.Builder
+	sb.WriteString("Definition " + name + " : list (nat * claimset * claimset * option bs) := [\n")
+	for i, r := range rel {
+		sep := ";"
+		if i == len(rel)-1 {
+			sep = ""
+		}
+		ui := "None"
+		if r.uiAnswered {
+			ui = "Some " + coqStr(r.userinfo)
+		}
+		sb.WriteString(fmt.Sprintf(" (%d%%nat, %s, %s, %s)%s\n", r.idx, s.env.coqClaims(r.idt), s.env.coqClaims(r.act), ui, sep))
+	}
+	sb.WriteString("].\n")
+	return sb.String()
+}
+
+// ---------------------------------------------------------------- the authorization step
+
+type c12Authz struct {
+	site   *c12Site
+	user   string
+	coq    string
+	t0, t1 int64
+	tok    *symTok
+	label  string
+	status int
+}
+
+func (x *c12Run) runAuthz(s *c12Site, label, method string, q url.Values) c12Authz {
+	st := s.env.state
+	client := q.Get("client_id")
+	scopeOK := false
+	for _, sc := range strings.Split(q.Get("scope"), " ") {
+		if sc == "openid" {
+			scopeOK = true
+		}
+	}
+	redirectOK, audOK := false, false
+	if cc, err := st.idpOpenIDCGetClientConfig(client); err == nil {
+		ok, _, err := cc.CanRedirectToURL(q.Get("redirect_uri"))
+		redirectOK = ok && err == nil
+		if q.Get("audience") != "" {
+			a, err := cc.CorsOriginAllowed(q.Get("audience"))
+			audOK = cc.RequestedAudienceIsAllowed(q.Get("audience")) && a && err == nil
+		}
+	}
+	var req *http.Request
+	if method == "GET" {
+		req = verifNewRequest("GET", idpOpenIDCAuthorizationPath, q)
+	} else {
+		req = verifNewRequest(method, idpOpenIDCAuthorizationPath, q)
+	}
+	req.AddCookie(s.env.cookie("alice", AuthTypePassword))
+	a0 := time.Now().UnixNano()
+	rr, _ := s.env.serve(req)
+	a1 := time.Now().UnixNano()
+	var tok *symTok
+	jti := ""
+	if rr.Code == 302 {
+		if loc, err := url.Parse(rr.Header().Get("Location")); err == nil && loc.Query().Get("code") != "" {
+			tok = newSymTok(loc.Query().Get("code"), s.sid, false, "authorize:"+label)
+			jti, _ = tok.claims["jti"].(string)
+			if !strings.HasPrefix(rr.Header().Get("Location"), q.Get("redirect_uri")+"?") {
+				x.hit("C12:authorize:redirect-target", "the code is delivered to the requested redirect URI", "Location "+rr.Header().Get("Location"), label, nil)
+			}
+		}
+	}
+	coq := fmt.Sprintf("{| ar_method_ok := %s; ar_response_type := %s; ar_client := %s; ar_scope := %s; ar_scope_openid := %s; ar_redirect := %s; ar_redirect_ok := %s; ar_challenge := %s; ar_method := %s; ar_audience := %s; ar_audience_ok := %s; ar_nonce := %s; ar_jti := %s |}",
+		coqBool(method == "GET" || method == "POST"), coqStr(q.Get("response_type")), coqStr(client), coqStr(q.Get("scope")), coqBool(scopeOK),
+		coqStr(q.Get("redirect_uri")), coqBool(redirectOK), coqStr(q.Get("code_challenge")), coqStr(q.Get("code_challenge_method")),
+		coqStr(q.Get("audience")), coqBool(audOK), coqStr(q.Get("nonce")), coqStr(jti))
+	x.res.eval("authorize|"+s.name+"|"+label, tok != nil)
+	x.res.bump("authorize")
+	return c12Authz{site: s, user: "alice", coq: coq, t0: a0, t1: a1, tok: tok, label: s.name + ": " + label, status: rr.Code}
+}
+
+func c12BaseQ() url.Values {
+	return url.Values{"response_type": {"code"}, "client_id": {c04ClientA}, "scope": {"openid"}, "redirect_uri": {c12RedirectSame}, "nonce": {c12Nonce}, "state": {"s"}}
+}
+
+func c12With(kv ...string) url.Values {
+	q := c12BaseQ()
+	for i := 0; i+1 < len(kv); i += 2 {
+		if kv[i+1] == "\x00" {
+			q.Del(kv[i])
+		} else {
+			q.Set(kv[i], kv[i+1])
+		}
+	}
+	return q
+}
+
+func c12CoqAuthz(name, idp string, authz []c12Authz) string {
+	var sb strings.Builder
+	sb.WriteString("Definition " + name + " : list (bs * areq * Z * Z * option claimset) := [\n")
+	for i, a := range authz {
+		sep := ";"
+		if i == len(authz)-1 {
+			sep = ""
+		}
+		obs := "None"
+		if a.tok != nil {
+			obs = "Some " + a.site.env.coqClaims(a.tok)
+		}
+		sb.WriteString(fmt.Sprintf(" (%s, %s, (%d)%%Z, (%d)%%Z, %s)%s\n", coqStr(a.user), a.coq, a.t0, a.t1, obs, sep))
+	}
+	sb.WriteString("].\n")
+	return sb.String()
+}
+
+func TestVerif_C12(t *testing.T) {
+	verifWriteConsts(t)
+	res := newVerifResult("token endpoint over the full product: caller {client with secret, secret-less client, unknown} x secret {right, wrong, none} x verifier {right, wrong, none} x challenge bound into the code {S256, plain, empty method, unknown method, none} x redirect_uri {same, other, absent, empty, same with trailing slash, same in upper case, sent twice same first, sent twice other first} x code {fresh, expired, tampered, issued to the other client, a session cookie, an access token} x credentials in {header, form, header url-escaped} = 19440 requests (codes from the real authorize endpoint where it admits the challenge method, otherwise signed in-package); the sub-product of 288 requests plus 9 authorization requests on each of four more daemon states (signer RSA-3072, P-256, P-384, P-521, each with an Ed25519 SSH CA; key files through the configuration surface), KeymasterPublicKeys / JWKS / discovery of each compared with the model, two key-file sets the daemon must refuse; every released ID token decoded and verified under the published key its kid names, every released access token taken to userinfo; ~70 authorization requests; ~60 userinfo probes (other kinds, audiences, header/form/query); non-trivial = the request passed client lookup; distinct by combination")
+	env := verifSetup(t, c12Config)
+	st := env.state
+	sid := env.signerKeyID()
+	prod := env.c04Produce2(t)
+	env.writeTokenConsts(t, prod)
+	issuer := st.idpGetIssuer()
+	x := &c12Run{t: t, res: res, hitOnce: map[string]bool{}, perKey: map[string]int{}}
+	hit := x.hit
+	mainSpec := &c12Spec{name: "RSA-2048", signer: st.Signer}
+	main := &c12Site{name: "RSA-2048", suffix: "", env: env, keys: mainSpec.keys(), jwks: env.c12FetchJWKS(t), issuer: issuer, sid: sid}
+	main.fetchDiscovery(t)
+
+	// ---- the full product on the main state
+	tMint0 := time.Now().UnixNano()
+	codes := x.buildCodes(main, c12FullDims, prod)
+	res.Extra["codes"] = len(codes)
+	observed, rel, t0, t1, prodIndex := x.runProduct(main, c12FullDims, codes)
 	if len(rel) == 0 {
 		hit("C12:harness:nothing-released", "harness", "no combination released tokens", nil, nil)
+	}
+
+	// ---- the signer configurations: the sub-product, the authorization step, JWKS and discovery
+	type siteRun struct {
+		site     *c12Site
+		codes    []*c12Code
+		observed []byte
+		rel      []c12Released
+		t0, t1   int64
+		authz    []c12Authz
+	}
+	edKey := func() crypto.Signer {
+		_, k, err := ed25519.GenerateKey(rand.Reader)
+		if err != nil {
+			t.Fatal(err)
+		}
+		return k
+	}
+	ecKey := func(c elliptic.Curve) crypto.Signer {
+		k, err := ecdsa.GenerateKey(c, rand.Reader)
+		if err != nil {
+			t.Fatal(err)
+		}
+		return k
+	}
+	rsa3072, err := rsa.GenerateKey(rand.Reader, 3072)
+	if err != nil {
+		t.Fatal(err)
+	}
+	sibling, _ := tokForeignKeys()
+	p256 := ecKey(elliptic.P256())
+	specs := []*c12Spec{
+		{name: "RSA-3072", signer: rsa3072, ed: edKey()},
+		// the file lists the signer's own public key: loaded once, in file position
+		{name: "P-256", signer: p256, ed: edKey(), file: []crypto.PublicKey{p256.Public()}},
+		// a sibling instance's RSA public key: challenges can be sealed (for the sibling), not opened here
+		{name: "P-384", signer: ecKey(elliptic.P384()), ed: edKey(), file: []crypto.PublicKey{sibling.Public()}, sibling: sibling},
+		{name: "P-521", signer: ecKey(elliptic.P521()), ed: edKey()},
+	}
+	signerDims := c12SignerDims
+	if verifThorough() {
+		signerDims = c12SignerDimsThorough
+	}
+	var siteRuns []*siteRun
+	var signerIndex []string
+	for n, sp := range specs {
+		senv := sp.start(t)
+		if sp.sibling != nil {
+			tokSiblingKeys[senv] = []*rsa.PrivateKey{sp.sibling}
+		}
+		s := &c12Site{name: sp.name, suffix: fmt.Sprintf("_s%d", n+1), env: senv, spec: sp, keys: sp.keys(), jwks: senv.c12FetchJWKS(t),
+			issuer: senv.state.idpGetIssuer(), sid: senv.signerKeyID(), sibling: sp.sibling}
+		s.fetchDiscovery(t)
+		sr := &siteRun{site: s}
+		sr.codes = x.buildCodes(s, signerDims, nil)
+		var ix []string
+		sr.observed, sr.rel, sr.t0, sr.t1, ix = x.runProduct(s, signerDims, sr.codes)
+		signerIndex = append(signerIndex, ix...)
+		released := map[string]bool{}
+		for _, r := range sr.rel {
+			released[ix[r.idx]] = true
+		}
+		if len(sr.rel) == 0 {
+			hit("C12:harness:nothing-released:"+sp.name, "harness", "no combination released tokens with the "+sp.name+" signer", nil, nil)
+		}
+		res.Extra["released:"+sp.name] = len(sr.rel)
+		sr.authz = append(sr.authz, x.runAuthz(s, "base", "GET", c12BaseQ()))
+		for _, cl := range []string{c04ClientA, c04ClientB} {
+			sr.authz = append(sr.authz, x.runAuthz(s, "client="+cl+" challenge S256", "GET", c12With("client_id", cl, "code_challenge", c12S256(c12V), "code_challenge_method", "S256")))
+			sr.authz = append(sr.authz, x.runAuthz(s, "client="+cl+" challenge without method", "GET", c12With("client_id", cl, "code_challenge", c12V)))
+			sr.authz = append(sr.authz, x.runAuthz(s, "client="+cl+" challenge plain", "GET", c12With("client_id", cl, "code_challenge", c12V, "code_challenge_method", "plain")))
+			sr.authz = append(sr.authz, x.runAuthz(s, "client="+cl+" no challenge", "GET", c12With("client_id", cl)))
+		}
+		for _, a := range sr.authz {
+			res.bump(fmt.Sprintf("site:%s:authorize:%d", sp.name, a.status))
+		}
+		siteRuns = append(siteRuns, sr)
+	}
+	// outside the model: an ECDSA signer on a curve neither x/crypto/ssh nor go-jose supports.  The
+	// daemon starts; whatever it releases must still verify under its JWKS (it releases nothing:
+	// every signing path answers 500).
+	{
+		sp := &c12Spec{name: "P-224", signer: ecKey(elliptic.P224()), ed: edKey()}
+		obs := map[string]interface{}{"started": false}
+		if sp.tryLoad(t) {
+			penv := sp.start(t)
+			ps := &c12Site{name: sp.name, suffix: "_p224", env: penv, spec: sp, keys: sp.keys(), jwks: penv.c12FetchJWKS(t), issuer: penv.state.idpGetIssuer(), sid: penv.signerKeyID()}
+			ps.fetchDiscovery(t)
+			obs = map[string]interface{}{"started": true, "keymaster_public_keys": len(penv.state.KeymasterPublicKeys), "jwks_keys": len(ps.jwks.set.Keys)}
+			// no session cookie can be signed, so nobody gets as far as the authorization step
+			if _, err := penv.state.setNewAuthCookie(nil, "alice", AuthTypePassword); err != nil {
+				obs["session_cookie_error"] = err.Error()
+			} else {
+				a := x.runAuthz(ps, "base", "GET", c12BaseQ())
+				obs["authorize_status"], obs["code_issued"] = a.status, a.tok != nil
+				if a.tok != nil {
+					pcodes := make([]*c12Code, 3*5*6)
+					pcodes[(0*5+4)*6+0] = &c12Code{tok: a.tok, client: c04ClientA, user: "alice", minted: a.t0 / 1e9, chal: 4}
+					_, prel, _, _, _ := x.runProduct(ps, c12Dims{[]int{0}, []int{0}, []int{2}, []int{4}, []int{0}, []int{0}, []int{0, 1}}, pcodes)
+					obs["released"] = len(prel)
+				}
+			}
+		}
+		res.Extra["unsupported_curve_signer"] = obs
+	}
+	// key files the daemon must refuse to start with
+	_, edPriv, _ := ed25519.GenerateKey(rand.Reader)
+	refusedSpecs := []*c12Spec{
+		{name: "refused:Ed25519-as-signer", signer: edPriv, ed: edKey()},
+		{name: "refused:RSA-as-Ed25519-CA", signer: ecKey(elliptic.P256()), ed: sibling},
+	}
+	var refusedObs []bool
+	for _, sp := range refusedSpecs {
+		started := sp.tryLoad(t)
+		refusedObs = append(refusedObs, started)
+		res.eval("keys|"+sp.name+fmt.Sprint(started), true)
+		res.bump(fmt.Sprintf("keyfiles:%s:started=%v", sp.name, started))
 	}
 
 	// ---- single requests outside the product: expiry boundaries of the code, malformed requests
@@ -489,74 +1137,9 @@ func TestVerif_C12(t *testing.T) {
 	}
 
 	// ---- the authorization step
-	type authzCase struct {
-		user   string
-		coq    string
-		t0, t1 int64
-		tok    *symTok
-		label  string
-	}
-	var authz []authzCase
-	runAuthz := func(label, method string, q url.Values) {
-		client := q.Get("client_id")
-		scopeOK := false
-		for _, s := range strings.Split(q.Get("scope"), " ") {
-			if s == "openid" {
-				scopeOK = true
-			}
-		}
-		redirectOK, audOK := false, false
-		if cc, err := st.idpOpenIDCGetClientConfig(client); err == nil {
-			ok, _, err := cc.CanRedirectToURL(q.Get("redirect_uri"))
-			redirectOK = ok && err == nil
-			if q.Get("audience") != "" {
-				a, err := cc.CorsOriginAllowed(q.Get("audience"))
-				audOK = cc.RequestedAudienceIsAllowed(q.Get("audience")) && a && err == nil
-			}
-		}
-		var req *http.Request
-		if method == "GET" {
-			req = verifNewRequest("GET", idpOpenIDCAuthorizationPath, q)
-		} else {
-			req = verifNewRequest(method, idpOpenIDCAuthorizationPath, q)
-		}
-		req.AddCookie(env.cookie("alice", AuthTypePassword))
-		a0 := time.Now().UnixNano()
-		rr, _ := env.serve(req)
-		a1 := time.Now().UnixNano()
-		var tok *symTok
-		jti := ""
-		if rr.Code == 302 {
-			if loc, err := url.Parse(rr.Header().Get("Location")); err == nil && loc.Query().Get("code") != "" {
-				tok = newSymTok(loc.Query().Get("code"), sid, false, "authorize:"+label)
-				jti, _ = tok.claims["jti"].(string)
-				if !strings.HasPrefix(rr.Header().Get("Location"), q.Get("redirect_uri")+"?") {
-					hit("C12:authorize:redirect-target", "the code is delivered to the requested redirect URI", "Location "+rr.Header().Get("Location"), label, nil)
-				}
-			}
-		}
-		coq := fmt.Sprintf("{| ar_method_ok := %s; ar_response_type := %s; ar_client := %s; ar_scope := %s; ar_scope_openid := %s; ar_redirect := %s; ar_redirect_ok := %s; ar_challenge := %s; ar_method := %s; ar_audience := %s; ar_audience_ok := %s; ar_nonce := %s; ar_jti := %s |}",
-			coqBool(method == "GET" || method == "POST"), coqStr(q.Get("response_type")), coqStr(client), coqStr(q.Get("scope")), coqBool(scopeOK),
-			coqStr(q.Get("redirect_uri")), coqBool(redirectOK), coqStr(q.Get("code_challenge")), coqStr(q.Get("code_challenge_method")),
-			coqStr(q.Get("audience")), coqBool(audOK), coqStr(q.Get("nonce")), coqStr(jti))
-		authz = append(authz, authzCase{user: "alice", coq: coq, t0: a0, t1: a1, tok: tok, label: label})
-		res.eval("authorize|"+label, tok != nil)
-		res.bump("authorize")
-	}
-	baseQ := func() url.Values {
-		return url.Values{"response_type": {"code"}, "client_id": {c04ClientA}, "scope": {"openid"}, "redirect_uri": {c12RedirectSame}, "nonce": {c12Nonce}, "state": {"s"}}
-	}
-	with := func(kv ...string) url.Values {
-		q := baseQ()
-		for i := 0; i+1 < len(kv); i += 2 {
-			if kv[i+1] == "\x00" {
-				q.Del(kv[i])
-			} else {
-				q.Set(kv[i], kv[i+1])
-			}
-		}
-		return q
-	}
+	var authz []c12Authz
+	runAuthz := func(label, method string, q url.Values) { authz = append(authz, x.runAuthz(main, label, method, q)) }
+	baseQ, with := c12BaseQ, c12With
 	runAuthz("base", "GET", baseQ())
 	runAuthz("post", "POST", baseQ())
 	runAuthz("put", "PUT", baseQ())
@@ -625,6 +1208,19 @@ func TestVerif_C12(t *testing.T) {
 			} else if un, _ := s.claims["username"].(string); un != c.user {
 				hit("C12:userinfo:other-user", "userinfo names the user of the access token", fmt.Sprintf("userinfo answered %q for a token of %q", c.user, un), label, nil)
 			}
+			// the audience rule: a token restricted to other audiences is not for userinfo
+			if auds, isList := s.claims["aud"].([]interface{}); isList && len(auds) > 0 {
+				forUserinfo := false
+				for _, a := range auds {
+					if a == issuer+idpOpenIDCUserinfoPath {
+						forUserinfo = true
+					}
+				}
+				if !forUserinfo {
+					hit("C12:userinfo:audience", "userinfo answers for an access token with an audience list only if the list contains the userinfo URL",
+						fmt.Sprintf("userinfo answered %q for an access token whose audience list %v does not contain %s (%s)", c.user, auds, issuer+idpOpenIDCUserinfoPath, s.note), label, nil)
+				}
+			}
 		}
 		uis = append(uis, c)
 		res.eval("userinfo|"+label+"|"+how, s.claims != nil)
@@ -683,37 +1279,76 @@ func TestVerif_C12(t *testing.T) {
 	sb.WriteString(coqCaseHeader)
 	sb.WriteString("From KM Require Import Base.Cases Model.Tokens Model.OIDC Model.TokenCases Model.OIDCEnum.\nOpen Scope Z_scope.\n")
 	sb.WriteString("Definition c12_idp : idp :=\n  " + env.coqIdp() + ".\n")
-	sb.WriteString("Definition codes : list token := [\n")
-	for i, c := range codes {
-		sep := ";"
-		if i == len(codes)-1 {
-			sep = ""
-		}
-		sb.WriteString(" " + env.coqToken(c.tok) + sep + "\n")
-	}
-	sb.WriteString("].\n")
-	var cl []string
-	for _, c := range callers {
-		cl = append(cl, fmt.Sprintf("(%s, %s)", coqStr(c.id), coqStr(c.secret)))
-	}
-	sb.WriteString(fmt.Sprintf("Definition c12_env : c12env :=\n  {| e_callers := [%s]; e_wrong_secret := %s; e_V := %s; e_W := %s; e_HV := %s; e_HW := %s;\n     e_red_same := %s; e_red_diff := %s; e_codes := codes |}.\n",
-		strings.Join(cl, "; "), coqStr(c12WrongSecret), coqStr(c12V), coqStr(c12W), coqStr(c12S256(c12V)), coqStr(c12S256(c12W)), coqStr(c12RedirectSame), coqStr(c12RedirectDiff)))
+	sb.WriteString(main.coqEnv(codes))
 	sb.WriteString("Definition observed : bs := " + coqPacked(observed) + ".\n")
 	sb.WriteString(fmt.Sprintf("Definition c12_product_mismatches := Eval vm_compute in product_mismatches c12_idp c12_env (%d)%%Z (%d)%%Z observed.\nPrint c12_product_mismatches.\n", t0, t1))
 	sb.WriteString("Definition c12_ncases := Eval vm_compute in length all_combos.\nPrint c12_ncases.\n")
-	sb.WriteString("Definition released_cases : list (nat * claimset * claimset * option bs) := [\n")
-	for i, r := range rel {
-		sep := ";"
-		if i == len(rel)-1 {
-			sep = ""
+	sb.WriteString(main.coqReleased("released_cases", rel))
+	sb.WriteString(fmt.Sprintf("Definition c12_release_mismatches := Eval vm_compute in mismatches (release_bad c12_idp c12_env (%d)%%Z (%d)%%Z) released_cases.\nPrint c12_release_mismatches.\n", t0, t1))
+	// the signer configurations
+	var prodParts, relParts, authzParts, keyCases, idpCases []string
+	keyCases = append(keyCases, fmt.Sprintf("(%s, %s)", main.keys.coq, main.coqKeysObserved()))
+	relAlgs := func(rel []c12Released) string {
+		seen := map[int]bool{}
+		var l []string
+		for _, r := range rel {
+			for _, a := range []int{r.idt.alg, r.act.alg} {
+				if !seen[a] {
+					seen[a] = true
+					l = append(l, fmt.Sprintf("%d%%N", a))
+				}
+			}
 		}
-		ui := "None"
-		if r.uiAnswered {
-			ui = "Some " + coqStr(r.userinfo)
-		}
-		sb.WriteString(fmt.Sprintf(" (%d%%nat, %s, %s, %s)%s\n", r.idx, env.coqClaims(r.idt), env.coqClaims(r.act), ui, sep))
+		return "[" + strings.Join(l, "; ") + "]"
 	}
-	sb.WriteString(fmt.Sprintf("].\nDefinition c12_release_mismatches := Eval vm_compute in mismatches (release_bad c12_idp c12_env (%d)%%Z (%d)%%Z) released_cases.\nPrint c12_release_mismatches.\n", t0, t1))
+	idpCases = append(idpCases, fmt.Sprintf("(%s, c12_idp, %s)", main.keys.coq, relAlgs(rel)))
+	var keyIndex, signerRelIndex, signerAuthzIndex []string
+	keyIndex = append(keyIndex, "signer configuration "+main.name)
+	relOff, authzOff := 0, 0
+	// the sub-product that was run on the signer configurations (quick: OIDCEnum.signer_dims)
+	sb.WriteString("Definition signer_dims_run : dims := " + signerDims.coq() + ".\nDefinition signer_combos_run := Eval vm_compute in combos_of signer_dims_run.\n")
+	if !verifThorough() {
+		sb.WriteString("Definition c12_signer_dims_ok : signer_dims_run = signer_dims := eq_refl.\n")
+	}
+	for n, sr := range siteRuns {
+		s := sr.site
+		sb.WriteString("Definition c12_idp" + s.suffix + " : idp :=\n  " + s.env.coqIdp() + ".\n")
+		sb.WriteString(s.coqEnv(sr.codes))
+		sb.WriteString("Definition observed" + s.suffix + " : bs := " + coqPacked(sr.observed) + ".\n")
+		prodParts = append(prodParts, fmt.Sprintf("map (Nat.add %d) (product_mismatches_on signer_combos_run c12_idp%s c12_env%s (%d)%%Z (%d)%%Z observed%s)",
+			n*signerDims.size(), s.suffix, s.suffix, sr.t0, sr.t1, s.suffix))
+		sb.WriteString(s.coqReleased("released_cases"+s.suffix, sr.rel))
+		relParts = append(relParts, fmt.Sprintf("map (Nat.add %d) (mismatches (release_bad_on signer_combos_run c12_idp%s c12_env%s (%d)%%Z (%d)%%Z) released_cases%s)",
+			relOff, s.suffix, s.suffix, sr.t0, sr.t1, s.suffix))
+		for _, r := range sr.rel {
+			signerRelIndex = append(signerRelIndex, fmt.Sprintf("%s: released combination %d of the signer sub-product", s.name, r.idx))
+		}
+		relOff += len(sr.rel)
+		sb.WriteString(c12CoqAuthz("authorize_cases"+s.suffix, "c12_idp"+s.suffix, sr.authz))
+		authzParts = append(authzParts, fmt.Sprintf("map (Nat.add %d) (mismatches (authorize_bad c12_idp%s) authorize_cases%s)", authzOff, s.suffix, s.suffix))
+		for _, a := range sr.authz {
+			signerAuthzIndex = append(signerAuthzIndex, fmt.Sprintf("%s\tstatus=%d issued=%v", a.label, a.status, a.tok != nil))
+		}
+		authzOff += len(sr.authz)
+		keyCases = append(keyCases, fmt.Sprintf("(%s, %s)", s.keys.coq, s.coqKeysObserved()))
+		idpCases = append(idpCases, fmt.Sprintf("(%s, c12_idp%s, %s)", s.keys.coq, s.suffix, relAlgs(sr.rel)))
+		keyIndex = append(keyIndex, "signer configuration "+s.name)
+	}
+	for n, sp := range refusedSpecs {
+		obs := "None"
+		if refusedObs[n] {
+			obs = "Some ([], [], [])"
+		}
+		keyCases = append(keyCases, fmt.Sprintf("(%s, %s)", sp.keys().coq, obs))
+		keyIndex = append(keyIndex, fmt.Sprintf("key files %s started=%v", sp.name, refusedObs[n]))
+	}
+	sb.WriteString("Definition c12_signer_product_mismatches := Eval vm_compute in " + strings.Join(prodParts, "\n  ++ ") + ".\nPrint c12_signer_product_mismatches.\n")
+	sb.WriteString("Definition c12_signer_release_mismatches := Eval vm_compute in " + strings.Join(relParts, "\n  ++ ") + ".\nPrint c12_signer_release_mismatches.\n")
+	sb.WriteString("Definition c12_signer_authorize_mismatches := Eval vm_compute in " + strings.Join(authzParts, "\n  ++ ") + ".\nPrint c12_signer_authorize_mismatches.\n")
+	sb.WriteString("Definition key_cases : list (keyconf * option (list (N * N) * list (N * N) * list N)) := [\n " + strings.Join(keyCases, ";\n ") + "].\n")
+	sb.WriteString("Definition c12_keys_mismatches := Eval vm_compute in mismatches keys_bad key_cases.\nPrint c12_keys_mismatches.\n")
+	sb.WriteString("Definition idp_cases : list (keyconf * idp * list N) := [\n " + strings.Join(idpCases, ";\n ") + "].\n")
+	sb.WriteString("Definition c12_idp_mismatches := Eval vm_compute in mismatches idp_bad idp_cases.\nPrint c12_idp_mismatches.\n")
 	sb.WriteString("Definition token_cases : list (treq * Z * Z * bool) := [\n")
 	for i, c := range tcs {
 		sep := ";"
@@ -723,19 +1358,8 @@ func TestVerif_C12(t *testing.T) {
 		sb.WriteString(fmt.Sprintf(" (%s, (%d)%%Z, (%d)%%Z, %s)%s\n", c.coq, c.t0, c.t1, coqBool(c.released), sep))
 	}
 	sb.WriteString("].\nDefinition c12_token_mismatches := Eval vm_compute in mismatches (token_bad c12_idp) token_cases.\nPrint c12_token_mismatches.\n")
-	sb.WriteString("Definition authorize_cases : list (bs * areq * Z * Z * option claimset) := [\n")
-	for i, a := range authz {
-		sep := ";"
-		if i == len(authz)-1 {
-			sep = ""
-		}
-		obs := "None"
-		if a.tok != nil {
-			obs = "Some " + env.coqClaims(a.tok)
-		}
-		sb.WriteString(fmt.Sprintf(" (%s, %s, (%d)%%Z, (%d)%%Z, %s)%s\n", coqStr(a.user), a.coq, a.t0, a.t1, obs, sep))
-	}
-	sb.WriteString("].\nDefinition c12_authorize_mismatches := Eval vm_compute in mismatches (authorize_bad c12_idp) authorize_cases.\nPrint c12_authorize_mismatches.\n")
+	sb.WriteString(c12CoqAuthz("authorize_cases", "c12_idp", authz))
+	sb.WriteString("Definition c12_authorize_mismatches := Eval vm_compute in mismatches (authorize_bad c12_idp) authorize_cases.\nPrint c12_authorize_mismatches.\n")
 	sb.WriteString("Definition userinfo_cases : list (token * Z * Z * option bs) := [\n")
 	for i, u := range uis {
 		sep := ";"
@@ -752,37 +1376,54 @@ func TestVerif_C12(t *testing.T) {
 	if err := ioutil.WriteFile(filepath.Join(verifOut(), "CasesC12.v"), []byte(sb.String()), 0644); err != nil {
 		t.Fatal(err)
 	}
-	// index: product lines first (same order), then the other lists
-	var ix strings.Builder
-	n := 0
-	for cl2 := 0; cl2 < 3; cl2++ {
-		for sm := 0; sm < 3; sm++ {
-			for vm := 0; vm < 3; vm++ {
-				for ck := 0; ck < 5; ck++ {
-					for rd := 0; rd < 2; rd++ {
-						for cs := 0; cs < 6; cs++ {
-							for loc := 0; loc < 3; loc++ {
-								ix.WriteString(fmt.Sprintf("%d\tcaller=%d secret=%d verifier=%d challenge=%d redirect=%d code=%d location=%d released=%d\n", n, cl2, sm, vm, ck, rd, cs, loc, observed[n]))
-								n++
-							}
-						}
-					}
-				}
+	// index files: one line per case, same numbering as the case lists
+	numbered := func(file string, lines []string) {
+		var ix strings.Builder
+		for n, l := range lines {
+			ix.WriteString(fmt.Sprintf("%d\t%s\n", n, l))
+		}
+		ioutil.WriteFile(filepath.Join(verifOut(), file), []byte(ix.String()), 0644)
+	}
+	numbered("CasesC12.idx", prodIndex)
+	numbered("CasesC12_signers.idx", signerIndex)
+	numbered("CasesC12_signer_released.idx", signerRelIndex)
+	numbered("CasesC12_signer_authorize.idx", signerAuthzIndex)
+	numbered("CasesC12_keys.idx", keyIndex)
+	var ixT, ixA, ixU []string
+	for _, c := range tcs {
+		ixT = append(ixT, fmt.Sprintf("%s\treleased=%v", c.label, c.released))
+	}
+	for _, a := range authz {
+		ixA = append(ixA, fmt.Sprintf("%s\tstatus=%d issued=%v", a.label, a.status, a.tok != nil))
+	}
+	for _, u := range uis {
+		ixU = append(ixU, fmt.Sprintf("%s\tanswered=%v user=%q", u.label, u.answered, u.user))
+	}
+	numbered("CasesC12_token.idx", ixT)
+	numbered("CasesC12_authorize.idx", ixA)
+	numbered("CasesC12_userinfo.idx", ixU)
+	// observations outside the statement: what discovery advertises vs. what the tokens are signed with
+	disc := map[string]interface{}{}
+	for _, s := range append([]*c12Site{main}, func() []*c12Site {
+		var l []*c12Site
+		for _, sr := range siteRuns {
+			l = append(l, sr.site)
+		}
+		return l
+	}()...) {
+		alg, _ := publicToPreferedJoseSigAlgo(s.env.state.Signer.Public())
+		in := false
+		for _, a := range s.adv {
+			if a == string(alg) {
+				in = true
 			}
 		}
+		disc[s.name] = map[string]interface{}{"id_token_signing_alg_values_supported": s.adv, "tokens_signed_with": string(alg), "advertised": in, "jwks_keys": len(s.jwks.set.Keys)}
+		if len(s.env.panics) > 0 && s != main {
+			res.hit(verifHit{Key: "C12:panic", Oracle: "an OpenID endpoint panicked", What: s.name + ": " + s.env.panics[0], Case: s.env.panics})
+		}
 	}
-	ioutil.WriteFile(filepath.Join(verifOut(), "CasesC12.idx"), []byte(ix.String()), 0644)
-	var ix2 strings.Builder
-	for i, c := range tcs {
-		ix2.WriteString(fmt.Sprintf("token %d\t%s\treleased=%v\n", i, c.label, c.released))
-	}
-	for i, a := range authz {
-		ix2.WriteString(fmt.Sprintf("authorize %d\t%s\tissued=%v\n", i, a.label, a.tok != nil))
-	}
-	for i, u := range uis {
-		ix2.WriteString(fmt.Sprintf("userinfo %d\t%s\tanswered=%v user=%q\n", i, u.label, u.answered, u.user))
-	}
-	ioutil.WriteFile(filepath.Join(verifOut(), "CasesC12_other.idx"), []byte(ix2.String()), 0644)
+	res.Extra["discovery_vs_signer"] = disc
 	res.Extra["released"] = len(rel)
 	res.Extra["mint_window_ns"] = []int64{tMint0, t0, t1}
 	for i := 0; i < len(rel) && i < 3; i++ {
